@@ -29,6 +29,7 @@ func checkC01(w *World, r *Report) {
 	r.Explanation += " Round 9: (R01.2) sync/atomic writes into tree fields count as writes; (R01.11) the identity fields of a *Template parameter are written only while the template is built."
 	r.Explanation += " Round 10: (R01.12) containers of a pool that become template values are never recycled."
 	r.Explanation += " Round 11: (R01.2) pointer-receiver calls on the address of a tree field are writes."
+	r.Explanation += " Round 12: (R01.13) loaders are not picked by remembered positions."
 	r.RuleText = "obligation = (pool, Put site) for R01.1, (function, store) for R01.2, (pool, field) for R01.3, (function, borrowed value) for R01.4; non-trivial = needed call-graph reachability or a must-assign dataflow"
 	r.Trusted = []string{"call graph over-approximates calls (sound for 'never reaches')", "unsafe container-of in ReleaseTokenizer is summarised as 'releases its argument'"}
 	r.Assumptions = []string{"user callbacks do not call the package's exported Release*/pool functions on engine-owned objects"}
